@@ -603,7 +603,10 @@ struct Gen {
 					all.push_back(F_MASSIGN);
 				}
 			}
-			if(T.trivial) all = {F_ALLOC};
+			if(T.trivial) {
+				all = {F_ALLOC};
+				if(T.assign_throws && P.faults_elem) all.push_back(F_CASSIGN);
+			}
 			for(int k : all)
 				if(rng.chance(2, 3)) fkinds.push_back(k);
 			if(fkinds.empty()) fkinds.push_back(all[static_cast<std::size_t>(rng.below(static_cast<int>(all.size())))]);
